@@ -525,3 +525,13 @@ func waitFinalizers() {
 	case <-time.After(200 * time.Millisecond):
 	}
 }
+
+// StepNS: simulated nanoseconds per step (per-process configuration knob,
+// VERIF_SIM_STEPNS): the same code runs on fast and on slow machines, so
+// how much time a call appears to take must not be fixed by the simulator.
+var StepNS = func() int64 {
+	if v, err := strconv.ParseInt(os.Getenv("VERIF_SIM_STEPNS"), 10, 64); err == nil && v > 0 {
+		return v
+	}
+	return 1000
+}()
